@@ -115,3 +115,29 @@ def run(chk):
     chk.assumptions += ["double division == exact truncation for |diff| < 2^53/res", "C int guard for compiled variants",
                         "empty clipped intervals (start == end) emitted for runs outside the window are not counted as runs"]
     return conclude(chk, dis + dis2, lambda: found)
+
+
+def replay(chk, payload):
+    """re-run the recorded input: an oracle request (JSON op) in its configuration, or a line of the slots / scan streams"""
+    from .common import replay_items
+    found, dis = [], []
+    cfg = lambda l: "pure" if l.split()[1] == "py" else "native"
+    for it in replay_items(chk):
+        l = it.get("input")
+        if not isinstance(l, str):
+            continue
+        if l.startswith("J "):
+            for cfgname in ([it["config"]] if it.get("config") else ["native", "pure"]):
+                o = chk.impl.run([l], config=cfgname)[0]
+                r = junline(o)
+                if "_raw" in r:
+                    found.append((f"C17 oracle crashed ({cfgname})", {"config": cfgname, "input": l, "impl": o}))
+                elif r.get("bad"):
+                    found.append((f"slot algebra violated ({cfgname}): {r['bad'][0]}", {"config": cfgname, "input": l, "impl": r}))
+                elif r.get("ok") is False:
+                    found.append((f"scan != maximal runs clipped to window ({cfgname})", {"config": cfgname, "input": l, "impl": r}))
+        else:
+            d, _, _ = chk.differential(it.get("stream", "replay"), [l], impl_of=cfg)
+            dis += d
+        chk.cov["evaluations"] += 1
+    return conclude(chk, dis, lambda: found)
